@@ -98,4 +98,39 @@ func ZZ_C05_disk_storage() {
 			zz.Assert(ok2 == dk2 && (!ok2 || m2.(string) == d2), "memory and disk agree for every key at every quiescent point")
 		}
 	}
+	// restart: a new process opens the same database and rebuilds its mirror from it
+	keysOnDisk := []string{}
+	for _, kk := range keys {
+		if _, ok := disk[kk]; ok {
+			keysOnDisk = append(keysOnDisk, kk)
+		}
+	}
+	pos := 0
+	zz.Override("(*github.com/boltdb/bolt.Tx).CreateBucketIfNotExists", func(tx *bolt.Tx, name []byte) (*bolt.Bucket, error) { return nil, nil })
+	zz.Override("(*github.com/boltdb/bolt.DB).View", func(db *bolt.DB, fn func(*bolt.Tx) error) error { return fn(nil) })
+	zz.Override("(*github.com/boltdb/bolt.Bucket).Cursor", func(b *bolt.Bucket) *bolt.Cursor { pos = 0; return &bolt.Cursor{} })
+	next := func() ([]byte, []byte) {
+		if pos >= len(keysOnDisk) {
+			return nil, nil
+		}
+		k := keysOnDisk[pos]
+		pos++
+		return []byte(k), []byte(disk[k])
+	}
+	zz.Override("(*github.com/boltdb/bolt.Cursor).First", func(c *bolt.Cursor) ([]byte, []byte) { return next() })
+	zz.Override("(*github.com/boltdb/bolt.Cursor).Next", func(c *bolt.Cursor) ([]byte, []byte) { return next() })
+	d2 := &DiskStorage{db: &bolt.DB{}, name: "relation", memory: NewMemoryStorage(),
+		serializer:   func(v interface{}) ([]byte, error) { return []byte(v.(string)), nil },
+		deserializer: func(b []byte) (interface{}, error) { return string(b), nil }}
+	err := d2.load()
+	if err != nil {
+		return // the transaction that creates the bucket may fail: the daemon then does not start
+	}
+	for _, kk := range keys {
+		got, gerr := d2.Get(kk)
+		dv, dok := disk[kk]
+		zz.Assert((gerr == nil) == dok && (!dok || got.(string) == dv), "after a restart the store returns exactly what the disk holds (every acknowledged record, nothing else)")
+	}
+	lst, lerr := d2.List()
+	zz.Assert(lerr == nil && len(lst) == len(disk), "after a restart the listing has exactly the records on disk")
 }
